@@ -207,8 +207,13 @@ func orSpan(nary *ast.Nary, fields []string) (string, []span) {
 			return "", nil
 		}
 		for _, espan := range espans {
-			spans = mergeSpan(spans, espan)
+			if !espan.none() { // an empty span adds nothing to an or
+				spans = mergeSpan(spans, espan)
+			}
 		}
+	}
+	if len(spans) == 0 {
+		return col, conflictSpans
 	}
 	sortByOrg(spans)
 	return col, spans
